@@ -207,6 +207,19 @@ def run(rep, tier, seed):
         c = bykey[k]
         rep.violation(f"totality:{c['what']}:trace-rejected", {"what": c["what"], "input_text": vlib.trunc(c.get("xml"), 1500), "matched_events": matched,
                                                                "offending_event": what})
+    # ---- time proportional to the work asked for: constructs whose work is linear in n must not
+    # take quadratic time (judged between n = 1000 and n = 20000, only where the larger one takes seconds)
+    LINEAR = {"class-many", "siblings", "siblings-text", "path-length", "points-length", "attr-long", "text-long", "comment-long",
+              "binary-chain", "comma-list", "for-list", "entity-like", "transform-list", "bearing-length", "defaults-many"}
+    times = {}
+    for c in cases:
+        if c["what"].startswith("depth:") and c.get("n") in (1000, 20000) and res[c["k"]]["status"] in ("ok", "err"):
+            times.setdefault(c["what"][6:], {})[c["n"]] = (res[c["k"]].get("us") or 0) / 1e6
+    for k, t in sorted(times.items()):
+        if k in LINEAR and 1000 in t and 20000 in t and t[20000] >= 2.0 and t[20000] > 150 * max(t[1000], 0.002):
+            rep.violation(f"totality:depth:{k}:superlinear", {"what": "depth:" + k, "seconds_at_1000": t[1000], "seconds_at_20000": t[20000],
+                                                                "detail": "twenty times the input takes more than 150 times as long: not proportional to the work asked for"})
+    rep.notes["seconds_at_20000"] = {k: round(t[20000], 3) for k, t in sorted(times.items()) if 20000 in t}
     # ---- the other front-ends on a sample ------------------------------------------
     svgdx, server_bin = vlib.build_bins()
     # (inputs on which the library itself already misbehaved are reported above, not sent again)
